@@ -90,7 +90,8 @@ def run_property(prop, tier, seed, workers=None, budget=None):
     if not outcomes and not run.harness:
         mism = phase_xproc(run, B["xproc"])
         for i, rs, d in mism[:2]:
-            path = os.path.join(VERIF, "replays", "%s-xproc-%s.json" % (prop, rs))
+            from .check import replay_dir
+            path = os.path.join(replay_dir(), "%s-xproc-%s.json" % (prop, rs))
             os.makedirs(os.path.dirname(path), exist_ok=True)
             json.dump({"property": prop, "xproc": True, "run_seed": rs, "tier": tier, "verif_seed": seed,
                        "digests": {k: list(v) for k, v in d.items()},
